@@ -18,7 +18,7 @@ fn len(disconnect: &Disconnect, properties: &Option<DisconnectProperties>) -> us
         let properties_len_len = len_len(properties_len);
         length += properties_len_len + properties_len;
     } else {
-        length += 1;
+        length += 2; // reason code + property length 0
     }
 
     length
